@@ -25,6 +25,7 @@ import (
 
 	"github.com/olric-data/olric/internal/cluster/partitions"
 	"github.com/olric-data/olric/internal/protocol"
+	"github.com/olric-data/olric/internal/verifhook"
 )
 
 var (
@@ -61,6 +62,7 @@ func (dm *DMap) unlockKey(ctx context.Context, key string, token []byte) error {
 		return ErrNoSuchLock
 	}
 
+	verifhook.Point(dm.s.rt.This().Name, "lock.check-release")
 	// release it.
 	_, err = dm.deleteKeys(ctx, key)
 	if err != nil {
@@ -194,6 +196,7 @@ func (dm *DMap) leaseKey(ctx context.Context, key string, token []byte, timeout 
 		return ErrNoSuchLock
 	}
 
+	verifhook.Point(dm.s.rt.This().Name, "lock.check-release")
 	// update
 	err = dm.Expire(ctx, key, timeout)
 	if err != nil {
